@@ -1,3 +1,3 @@
-/* fid: va-args-first-token-unchecked (fixed 360707e); msg: __VA_ARGS__ can only be used in variadic function-like macros */
+/* fid: va-args-first-token-unchecked (fixed 40f4bc5); msg: __VA_ARGS__ can only be used in variadic function-like macros */
 #define A __VA_ARGS__
 A
